@@ -56,9 +56,9 @@ def trace_list(case, graph):
         P = [v[0] for v in graph.values()]
         near = [(p[0] + 0.13, p[1] - 0.11) for p in P]
         n = len(P) - 1
-        idx = [(0, 2, 4), (0, 4, 1), (1, 3, 0), (4, 2, 0), (0, 2, 3, 4), (4, 3, 1, 0), (0, 4, 0, 4), (2, 0, 4, 2)]
+        idx = [t for t in ps.span_idx(n, four=True) if len(t) >= 3]
         if case.get("tier") == "thorough":
-            idx += [(0, 1, 2, 3, 4), (4, 2, 0, 2, 4), (0, 4, 1, 3, 2)]
+            idx += [(0, 1, 2, 3, n), (n, 2, 0, 2, n), (0, n, 1, 3, 2)]
         out = [[near[min(i, n)] for i in t] for t in idx]
         out.append([near[0], al.FAR[pos], near[n]])
         return out
